@@ -754,6 +754,37 @@ NP_TEMPLATES = [
 _NP_PARSERS = {}
 
 
+_SAME_SIZE = {}
+
+
+def same_size_texts_case(ctx, k0):
+    """a tool reads one small text after the other - all of one length - looks at each and drops it: what a leaf gives
+    back as its original text is cut from the text it was given, whatever was looked at before"""
+    if 'p' not in _SAME_SIZE:
+        _SAME_SIZE['p'] = llparser.LLParser(r"(?P<SPACE>\s+)|(?P<W>[a-z]+)|(?P<N>[0-9]+)|(?P<EQ>=)",
+                                            synonyms={'W': 'WORD', 'N': 'NUM', 'EQ': '='},
+                                            productions={'E': [('WORD', '=', 'NUM')]})
+    parser = _SAME_SIZE['p']
+    text = None
+    for k in range(k0, k0 + 30):
+        ctx.evaluated()
+        word, num = "v" + "abcdefghij"[k % 10] + "xyz"[k % 3], "%03d" % (k * 7 % 1000)
+        case = {"same_size_texts": k0, "k": k}
+        got = tree = leaves = text = None               # (the text read before is gone, and all that was made from it)
+        text = "".join([word, " = ", num]) if k % 2 else "".join([word, " =\n", num])
+        try:
+            tree = parser.parse(text, do_cleanup=False)
+            leaves = [c for c in tree.value]
+            got = [c.get_orig_text(text) for c in leaves] + [tree.get_orig_text(text)]
+        except Exception as err:
+            ctx.violation("get-orig-text-raises", {"type": type(err).__name__, "msg": str(err)[:150]}, case)
+            return
+        ctx.count("texts_of_one_size_read_one_after_the_other")
+        if got != [word, "=", num, text]:
+            ctx.violation("get-orig-text-of-leaf", {"node": "WORD / = / NUM / E", "got": got, "expected": [word, "=", num, text]}, case)
+            return
+
+
 def nested_prefix_case(ctx, rng):
     """alternatives sharing prefixes, some of them nested: whatever the parser does with them internally, the node of X
     spans from the start of its first token to the end of its last one - also when skipped text follows"""
@@ -812,6 +843,8 @@ def nested_prefix_case(ctx, rng):
 def run_shard(ctx):
     for i in range(ctx.cases):
         rng = ctx.rng(i)
+        if i % 40 == 5:
+            same_size_texts_case(ctx, i)
         if i % 8 == 3:
             for _ in range(4):
                 nested_prefix_case(ctx, rng)
@@ -857,7 +890,9 @@ def run_shard(ctx):
             while pos > 0 and CONFIGS[cfg_id].get("blank_line_closes") and pieces[pos - 1][2].startswith(">>>") and \
                     pieces[pos - 1][2].endswith("\n"):
                 pos -= 1  # (the empty line that closes the block has to stay empty)
-            pieces.insert(pos, ("bad", None, rng.choice(["@", "$", "%", "/ ", "}", "\ufeff", "\x00", "\ufeff"])))
+            # (... also the colour sequences of a terminal, pasted with the text: characters no token starts with)
+            pieces.insert(pos, ("bad", None, rng.choice(["@", "$", "%", "/ ", "}", "\ufeff", "\x00", "\ufeff",
+                                                         "\x1b[31m", "\x1b[0m", "\x1b[38;5;200m"])))
         run_case(ctx, cfg_id, pieces, smart=rng.random() < 0.5)
         if i in (0, 1, 7):
             text, stream = layout(pieces, "str")
@@ -866,6 +901,9 @@ def run_shard(ctx):
 
 
 def replay(ctx, case):
+    if "same_size_texts" in case:
+        same_size_texts_case(ctx, case["same_size_texts"])
+        return
     if "nested_prefix_template" in case:
         import random
         for k in range(400):
